@@ -178,7 +178,10 @@ def run_impl(p):
             if f in ("concat_rows", "concat_mixed"):
                 return np.concatenate([RaggedArray(v.copy(), list(l)) for v, l in s])
             if f == "concat_cols":
-                return np.concatenate([RaggedArray(v.copy(), list(l)) for v, l in s], axis=-1)
+                parts = [RaggedArray(v.copy(), list(l)) for v, l in s]
+                # the column axis spelled -1 or 1, as keyword or positionally
+                h = len(parts) + sum(len(l) for _, l in s) + sum(sum(l) for _, l in s)
+                return [lambda: np.concatenate(parts, axis=-1), lambda: np.concatenate(parts, axis=1), lambda: np.concatenate(parts, -1), lambda: np.concatenate(parts, 1)][h % 4]()
             if f == "ragged_slice_nd":
                 arg = s
                 lay = p.get("layout", "C")
@@ -229,7 +232,13 @@ def run_impl(p):
                     kw["ends"] = np.array(p["ends"], dtype=int)
                 return ragged_slice(ra, **kw)
             if f == "padded":
-                return ra.as_padded_matrix(fill_value=p["fill"], side=p["side"])
+                # the documented defaults (fill_value=0, side="right") are left to the library when the case asks for them
+                kw = {}
+                if not (p["fill"] == 0 and p["vseed"] % 2 == 0):
+                    kw["fill_value"] = p["fill"]
+                if not (p["side"] == "right" and p["vseed"] % 3 != 0):
+                    kw["side"] = p["side"]
+                return ra.as_padded_matrix(**kw)
     return guarded(g)
 
 
